@@ -37,7 +37,7 @@ man = {
     "version": 1,
     "setup_cmd": f"cd /verif && {ENV} ./bin/setup",
     "hooks": {
-        "guard": "cargo feature `verif-hooks` (kanidmd_lib, pam_sparkle_common); off by default",
+        "guard": "cargo feature `verif-hooks` (kanidmd_lib, sparkle_resolver_common, pam_sparkle_common); off by default",
         "enable": "harness workspace /verif/harness depends on /repo crates by path with features=[\"verif-hooks\"]; "
                   "./bin/vcheck rebuilds (cargo build --profile verif) from /repo's working tree before every run",
         "baseline_off_cmd": "cd /repo && RUSTUP_TOOLCHAIN=1.96.0 cargo test --workspace --no-fail-fast --offline",
